@@ -230,9 +230,14 @@ def install_stubs(stubs):
     import btc_hd_wallet.bip32 as bip32
     import btc_hd_wallet.bip85 as bip85
     U.OVERRIDES.clear()
+    U.WILDCARD.clear()
     for name, args, out in stubs or []:
         if name == "hmac512":
             U.OVERRIDES[(name,) + tuple(bytes.fromhex(a) for a in args)] = bytes.fromhex(out)
+        if name == "hmac512*":
+            # chosen-output PRF: left half fixed, right half from the real HMAC
+            il = bytes.fromhex(out)
+            U.WILDCARD["hmac512"] = (lambda il: (lambda k, m: il + __import__("hmac").new(k, m, "sha512").digest()[32:]))(il)
     real = helper.hmac_sha512
     saved = [(m, m.hmac_sha512) for m in (helper, bip32, bip85) if hasattr(m, "hmac_sha512")]
 
@@ -241,7 +246,7 @@ def install_stubs(stubs):
         if ov is not None:
             return ov
         return real(key=key, msg=msg)
-    if U.OVERRIDES:
+    if U.OVERRIDES or U.WILDCARD:
         for m, _ in saved:
             m.hmac_sha512 = stub
 
@@ -249,6 +254,7 @@ def install_stubs(stubs):
         for m, f in saved:
             m.hmac_sha512 = f
         U.OVERRIDES.clear()
+        U.WILDCARD.clear()
     return undo
 
 
